@@ -35,7 +35,12 @@ pub struct Input {
 pub struct Extra {
     pub import: bool,
     pub counter: u8, // 0 none, 1 nai, 2 mem
+    /// verbosity: 0 = -q (all other runs), 1 = nothing, 2 = -v, 3 = -vv, 4 = -vvv, 5 = --rust_log trace, 6 = RUST_LOG=trace
+    /// in the environment. Logging goes to stderr; stdout must be the same interpretations.
+    pub verb: u8,
 }
+
+pub const VERB_NAMES: [&str; 7] = ["-q", "(no verbosity option)", "-v", "-vv", "-vvv", "--rust_log trace", "RUST_LOG=trace in the environment"];
 
 fn oracle_of(inp: &Input) -> crate::mid::Oracle {
     match inp.ring {
@@ -55,7 +60,18 @@ pub fn cli_case(cli: &str, path: &str, inp: &Input, mode: &str, sort: usize, fla
 pub fn cli_case_x(cli: &str, path: &str, inp: &Input, mode: &str, sort: usize, flagset: u32, heu: Option<&str>, extra: Extra) -> Vec<(String, String)> {
     let mut out = vec![];
     let n = inp.labels.len();
-    let mut args: Vec<String> = vec!["--lib".into(), mode.into(), "-q".into()];
+    let mut args: Vec<String> = vec!["--lib".into(), mode.into()];
+    match extra.verb {
+        0 => args.push("-q".into()),
+        2 => args.push("-v".into()),
+        3 => args.push("-vv".into()),
+        4 => args.push("-vvv".into()),
+        5 => {
+            args.push("--rust_log".into());
+            args.push("trace".into());
+        }
+        _ => {}
+    }
     if extra.import {
         args.push("--import".into());
     }
@@ -76,8 +92,8 @@ pub fn cli_case_x(cli: &str, path: &str, inp: &Input, mode: &str, sort: usize, f
         args.push(h.into());
     }
     args.push(path.into());
-    let o = run_cli(cli, &args);
-    let tag = format!("{}{}", mode, if heu.is_some() { "+heu" } else { "" });
+    let o = if extra.verb == 6 { run_cli_env(cli, &args, &[("RUST_LOG", "trace")]) } else { run_cli(cli, &args) };
+    let tag = format!("{}{}{}", mode, if heu.is_some() { "+heu" } else { "" }, if extra.verb > 0 { "+verbosity" } else { "" });
     if o.code != Some(0) {
         out.push((format!("{}:exit", tag), format!("exit status {:?} for a well-formed input: {}", o.code, o.stderr.lines().last().unwrap_or("").chars().take(200).collect::<String>())));
         return out;
@@ -298,10 +314,10 @@ pub fn cli_slice(run: &Run, flagsets: &[u32], heus: &[Option<usize>]) {
         // import of the exported state, with and without --counter (naive mode), and --counter on parsed input
         for f in flagsets {
             for counter in 0..3u8 {
-                jobs.push(Job { file, mode: 0, sort: 0, flags: *f, heu: heus[0], extra: Extra { import: true, counter } });
+                jobs.push(Job { file, mode: 0, sort: 0, flags: *f, heu: heus[0], extra: Extra { import: true, counter, verb: 0 } });
             }
             for mode in [0usize, 2] {
-                jobs.push(Job { file, mode, sort: file % 3, flags: *f, heu: heus[0], extra: Extra { import: false, counter: 1 + (file % 2) as u8 } });
+                jobs.push(Job { file, mode, sort: file % 3, flags: *f, heu: heus[0], extra: Extra { import: false, counter: 1 + (file % 2) as u8, verb: 0 } });
             }
         }
     }
@@ -345,7 +361,7 @@ struct Job {
 
 pub fn run_c15(run: &Run) {
     writers_selfcheck();
-    run.set_rule("the CLI binary built from the working tree is run on: A(2) (all 256 ADFs, index-derived writers) x 3 library modes x {none, --lx, --an} x every single semantics flag; F(3,1) (512 ADFs) x 3 modes x cycled sorting x a residue class of the 45 flag pairs; fixed three-statement files (0-3 stable models, two-valued non-stable models, sorting-sensitive, keyword-like, quoted and biodivine-reserved labels) x 3 modes x all 1024 flag subsets; --heu with all four values (and absent) x {--stmng, --twoval, both} x {naive, hybrid} on A(2); larger inputs (ring ADFs of 6-8 statements, sparse ADFs of 70/130/270 statements with the open part at the highest positions) x 3 modes x 3 sortings; malformed inputs. Oracle from the definitions: exit status 0; every stdout line is an interpretation labelling exactly the declared statements, in declaration order (no sorting) / byte-wise order (--lx); first the grounded line (--grd), then the complete models starting with the grounded one (--com), then a multiset equal to a copies of the stable models and b copies of the two-valued models, where a and b range from the number of given flags the mode must honour to the number given. Non-trivial: runs with >= 2 flags or a sorting flag.");
+    run.set_rule("the CLI binary built from the working tree is run on: A(2) (all 256 ADFs, index-derived writers) x 3 library modes x {none, --lx, --an} x every single semantics flag; F(3,1) (512 ADFs) x 3 modes x cycled sorting x a residue class of the 45 flag pairs; fixed three-statement files (0-3 stable models, two-valued non-stable models, sorting-sensitive, keyword-like, quoted and biodivine-reserved labels) x 3 modes x all 1024 flag subsets; --heu with all four values (and absent) x {--stmng, --twoval, both} x {naive, hybrid} on A(2); larger inputs (ring ADFs of 6-8 statements, sparse ADFs of 70/130/270 statements with the open part at the highest positions) x 3 modes x 3 sortings; every verbosity setting (none, -v, -vv, -vvv, --rust_log, RUST_LOG) on the fixed files; malformed inputs. Oracle from the definitions: exit status 0; every stdout line is an interpretation labelling exactly the declared statements, in declaration order (no sorting) / byte-wise order (--lx); first the grounded line (--grd), then the complete models starting with the grounded one (--com), then a multiset equal to a copies of the stable models and b copies of the two-valued models, where a and b range from the number of given flags the mode must honour to the number given. Non-trivial: runs with >= 2 flags or a sorting flag.");
     run.assume("(mode, flag) pairs documented or implemented as unsupported may print nothing or the right section: naive must honour grd/com/stm/stmng, biodivine grd/com/stm/stmrew/stmrew2, hybrid everything; --stmrew and --stmrew2 together are one section; the relative order of the sections after complete is not asserted; label order under --an is not asserted");
     let quick = run.quick();
     let cli = cli_path();
@@ -461,6 +477,14 @@ pub fn run_c15(run: &Run) {
             jobs.push(Job { file: fixed_from + k, mode: 0, sort: k % 3, flags: (1 << 8) | 1, heu: Some(h), extra: Extra::default() });
         }
     }
+    // verbosity: logging goes to stderr, stdout stays the interpretations
+    for k in 0..nfixed {
+        for mode in 0..3 {
+            for verb in 1..7u8 {
+                jobs.push(Job { file: fixed_from + k, mode, sort: (k + verb as usize) % 3, flags: 0b111, heu: None, extra: Extra { verb, ..Extra::default() } });
+            }
+        }
+    }
     // work is handed out in chunks of consecutive jobs: spread the long runs (larger inputs) evenly over the list
     {
         let (big, small): (Vec<Job>, Vec<Job>) = jobs.into_iter().partition(|j| j.file >= big_from && j.file < big_to);
@@ -493,12 +517,12 @@ pub fn run_c15(run: &Run) {
             }
             st.2.insert((job.mode as u64) << 20 | (job.sort as u64) << 16 | job.flags as u64 | (job.heu.map(|h| h as u64 + 1).unwrap_or(0) << 24));
             let path = format!("{}/in_{}.adf", tmp.0, job.file);
-            for (kind, msg) in cli_case(&cli, &path, inp, MODES[job.mode], job.sort, job.flags, job.heu.map(|h| HEUS[h])) {
+            for (kind, msg) in cli_case_x(&cli, &path, inp, MODES[job.mode], job.sort, job.flags, job.heu.map(|h| HEUS[h]), job.extra) {
                 let flags: Vec<&str> = (0..10).filter(|i| job.flags >> i & 1 == 1).map(|i| FLAGS[i]).collect();
                 run.violation(
                     &kind,
-                    format!("{} [--lib {} {} {} {}] on {}", msg, MODES[job.mode], SORTS[job.sort], flags.join(" "), job.heu.map(|h| format!("--heu {}", HEUS[h])).unwrap_or_default(), inp.text.replace('\n', "")),
-                    json!({"type": "cli", "text": inp.text, "labels": inp.labels, "tts": inp.tts, "mode": MODES[job.mode], "sort": job.sort, "flags": job.flags, "heu": job.heu.map(|h| HEUS[h]), "ring": inp.ring.map(|r| vec![r.0 as u64, r.1])}),
+                    format!("{} [--lib {} {} {} {} {}] on {}", msg, MODES[job.mode], SORTS[job.sort], flags.join(" "), job.heu.map(|h| format!("--heu {}", HEUS[h])).unwrap_or_default(), VERB_NAMES[job.extra.verb as usize], inp.text.replace('\n', "")),
+                    json!({"type": "cli", "text": inp.text, "labels": inp.labels, "tts": inp.tts, "mode": MODES[job.mode], "sort": job.sort, "flags": job.flags, "heu": job.heu.map(|h| HEUS[h]), "ring": inp.ring.map(|r| vec![r.0 as u64, r.1]), "verbosity": job.extra.verb}),
                 );
             }
         },
@@ -536,7 +560,7 @@ pub fn replay(c: &Value) -> Vec<(String, String)> {
     let path = format!("{}/in.adf", tmp.0);
     std::fs::write(&path, &text).unwrap_or_else(|_| machinery_error("cannot write input file"));
     let ring = c.get("ring").and_then(|r| Some((r[0].as_u64()? as usize, r[1].as_u64()?)));
-    let extra = Extra { import: c["import"].as_bool().unwrap_or(false), counter: c["counter"].as_u64().unwrap_or(0) as u8 };
+    let extra = Extra { import: c["import"].as_bool().unwrap_or(false), counter: c["counter"].as_u64().unwrap_or(0) as u8, verb: c["verbosity"].as_u64().unwrap_or(0) as u8 };
     let mut run_path = path.clone();
     if extra.import {
         let exp = format!("{}/exp.json", tmp.0);
